@@ -87,7 +87,7 @@ DevSoundMetric == \A key \in DOMAIN idx, q \in Qs, k \in Ks, res \in Cands :
                 SearchOKUnder({"KF_C29_MetricIgnored"}, key, q, k, res) => SearchOK(key, q, k, res)
 
 \* logical time and `at` stamps do not matter for the future: hide them from state identity
-Shape(key) == {<<e.id, e.v, IsDead(e), IsCurrent(key, e)>> : e \in ent[key]}
+Shape(key) == {<<e.id, e.v, e.st>> : e \in ent[key]}
 View == <<[n \in Live |-> <<node[n].labels, node[n].vec>>], idx, [key \in DOMAIN ent |-> Shape(key)],
           [key \in DOMAIN ent |-> Cardinality(ent[key])]>>
 Emit == PrintT(<<"SCRIPT", ToJson(hist')>>)
